@@ -114,7 +114,7 @@ pub(crate) fn remove_or_compress_too_old_logfiles_impl(
         .into_iter()
         .enumerate()
     {
-        if index >= log_limit + compress_limit {
+        if index >= log_limit.saturating_add(compress_limit) {
             // delete (log or log.gz)
             std::fs::remove_file(file)?;
         } else if index >= log_limit {
